@@ -30,8 +30,35 @@ def core_skips(repo, res):
     res.floor("SKIPS", n, 18)
 
 
+RAW_CTORS = ("DFA::from_regex", "DFA::from_regex_raw", "DFA::from_regex_lenient", "dfa_from_regex")
+
+
+def minonce(repo, res, rule="MINONCE"):
+    """do_minimize reserves state number 0 (DEAD_STATE_ID) for the implicit sink and relies on real states starting at
+    FIRST_STATE_ID = 1, which holds for an automaton fresh from the subset construction; its own result is renumbered from 0.
+    Minimising a minimised automaton therefore merges the start state with the sink.  Every `.minimize()` call outside tests must
+    take an automaton that comes straight from one of the raw constructors and from nothing that was minimised already."""
+    n = 0
+    for q, f in sorted(repo.fns.items()):
+        envs = None
+        for c in P.find_calls(f.body, methods={"minimize"}):
+            envs = envs or A.collect_envs(f)
+            p = A.show(A.resolve(c["recv"], envs.get(id(c))))
+            n += 1
+            raw = any(r + "(" in p for r in RAW_CTORS)
+            twice = ".minimize()" in p
+            res.check(raw and not twice, rule, f"{rule}:{q}", f"minimize() receives {p[:90]}" + ("" if raw and not twice else ": not (only) a fresh result of the subset construction -- a renumbered automaton has a real state 0, which do_minimize takes for the dead state"), f"{f.file}:{c['l']}")
+    # the two constants the argument rests on
+    dead = repo.consts.get("dfa::DEAD_STATE_ID")
+    first = repo.consts.get("dfa::FIRST_STATE_ID")
+    ok = dead is not None and first is not None and str(dead["expr"].get("v")) == "0" and str(first["expr"].get("v")) == "1"
+    res.check(ok, rule, f"{rule}:constants", f"DEAD_STATE_ID = {dead['expr'].get('v') if dead else '?'} < FIRST_STATE_ID = {first['expr'].get('v') if first else '?'}: raw automata never use the sink's number", "src/dfa.rs")
+    res.floor(rule, n, 2)
+
+
 def run(repo, res, tier):
     core_skips(repo, res)
+    minonce(repo, res)
     fq = "dfa::do_minimize"
     fn = repo.fn(fq)
     if fn is None:
